@@ -1,10 +1,11 @@
 package main
 
 import (
-	"io"
 	"bytes"
 	"context"
+	"encoding/binary"
 	"fmt"
+	"io"
 	"math/rand"
 	"runtime"
 	"sort"
@@ -284,6 +285,22 @@ func failingStreams(rng *rand.Rand) [][]byte {
 		m = append(m, rebuildChunk(int32(i), 1, []byte{5, 0, 0, 0, 0, 9, 0, 0, 0, 0, 0, 0, 0}, -1, nil)...)
 		m = append(m, good[td.off+td.l:]...)
 		out = append(out, m)
+	}
+	// a damaged PAYLOAD inside a well-formed outer document with a complete zlib stream: the payload ends exactly after
+	// the reference document, inside and after the two counts, after a zero delta whose run length is missing, one byte early
+	for i, td := range tds {
+		if td.payload == nil || i > 1 {
+			continue
+		}
+		pl := td.payload
+		refLen := int(binary.LittleEndian.Uint32(pl))
+		cuts := [][]byte{pl[:refLen], pl[:refLen+3], pl[:refLen+4], pl[:refLen+8], append(append([]byte{}, pl[:refLen+8]...), 0), pl[:len(pl)-1]}
+		for _, c := range cuts {
+			m := append([]byte{}, good[:td.off]...)
+			m = append(m, rebuildChunk(int32(i), 1, c, -1, nil)...)
+			m = append(m, good[td.off+td.l:]...)
+			out = append(out, m)
+		}
 	}
 	return out
 }
